@@ -268,6 +268,34 @@ special('http-udp-channel-quic-datagrams-on-tcp-listener', http_bad(b'Proxy-Prot
 special('http-protocol-unknown', http_bad(b'Proxy-Protocol: sctp\r\n'), True)
 special('http-target-without-port', http_bad(b'', target='nohost'), True)
 
+# ---- the VER byte of the SOCKS5 request itself (after the method negotiation): whatever it is, the client of a SOCKS5
+#      session is answered in SOCKS5, and a tunnel is not established behind its back
+def s5_request_ver(ver, tport):
+    s = socket.create_connection(('127.0.0.1', sp), timeout=5)
+    s.sendall(b'\x05\x01\x00')
+    if recv_exact(s, 2, 3) != b'\x05\x00':
+        s.close()
+        return None
+    s.sendall(bytes([ver, 1, 0]) + socks5_addr('127.0.0.1', tport) + b'hello')
+    got, how = recv_until_eof(s, 2.0)
+    s.close()
+    return got, how
+for ver in (0, 1, 4, 6, 255):
+    for label, tport in (('reachable', echo4.port), ('refused', closed_port)):
+        evals += 1
+        name = f'socks5-request-ver-{ver}-{label}'
+        r = s5_request_ver(ver, tport)
+        if r is None:
+            machinery(f'{name}: method negotiation failed')
+        got, how = r
+        relayed = b'hello' in got
+        distinct.add((name, 'relayed' if relayed else ('reply' if got else 'closed')))
+        replay = {'case': name, 'received': got.hex(), 'end': how}
+        if relayed and not got.startswith(b'\x05\x00'):
+            chk.violation('reply.iff', f'upstream-established-but-client-not-told:socks5-request-ver-{ver}', f'{name}: the tunnel was established and relayed (echo came back) but the client received {got[:24]!r} - no SOCKS5 success reply', replay)
+        elif got and got[0] != 5:
+            chk.violation('reply.wellformed', f'reply-in-another-protocol:socks5-request-ver-{ver}', f'{name}: a SOCKS5 session was answered with {got[:12].hex()}', replay)
+
 # ---- a session that was told 'established' and ends later (idle timeout, relay error) must not get a second reply:
 #      UDP associations keep their control connection open while they relay
 def after_success(name, opener, success_len):
